@@ -19,6 +19,7 @@ import (
 	"bytes"
 	"context"
 	"encoding/hex"
+	"encoding/json"
 	"errors"
 	"fmt"
 	"io"
@@ -58,12 +59,12 @@ func gfsHookAvailable() bool {
 // correspondence family always includes them (model and code agree on them).
 func gfsEdges() bool { return os.Getenv("VERIF_C18_EDGES") == "1" }
 
-func cbyte(seed, i int64) byte { return byte((seed + 131*i + i/251) % 256) }
+func gfsCByte(seed, i int64) byte { return byte((seed + 131*i + i/251) % 256) }
 
-func cbytes(seed, off, n int64) []byte {
+func gfsCBytes(seed, off, n int64) []byte {
 	out := make([]byte, n)
 	for i := int64(0); i < n; i++ {
-		out[i] = cbyte(seed, off+i)
+		out[i] = gfsCByte(seed, off+i)
 	}
 	return out
 }
@@ -214,8 +215,8 @@ func (e *gfsEnv) dump(f int64) string {
 	return sb.String()
 }
 
-// guarded runs fn with panic capture; with a watchdog when mayHang.
-func guarded(mayHang bool, fn func() string) (res string, stop bool) {
+// gfsGuarded runs fn with panic capture; with a watchdog when mayHang.
+func gfsGuarded(mayHang bool, fn func() string) (res string, stop bool) {
 	run := func() (s string, stop bool) {
 		defer func() {
 			if p := recover(); p != nil {
@@ -244,7 +245,7 @@ func guarded(mayHang bool, fn func() string) (res string, stop bool) {
 	}
 }
 
-func numOrErr(n int64, err error) string {
+func gfsNumOrErr(n int64, err error) string {
 	if err != nil {
 		return gfsErr(err)
 	}
@@ -267,50 +268,50 @@ func (e *gfsEnv) step(seed int64, op *sx) (string, bool) {
 		if e.up == nil {
 			return "w:NOSTREAM", false
 		}
-		data := cbytes(seed, arg(1), arg(2))
-		s, stop := guarded(e.upCS > e.B, func() string {
+		data := gfsCBytes(seed, arg(1), arg(2))
+		s, stop := gfsGuarded(e.upCS > e.B, func() string {
 			n, err := e.up.Write(data)
-			return numOrErr(int64(n), err)
+			return gfsNumOrErr(int64(n), err)
 		})
 		return "w:" + s, stop
 	case "close":
 		if e.up == nil {
 			return "c:NOSTREAM", false
 		}
-		s, stop := guarded(false, func() string { return gfsErr(e.up.Close()) })
+		s, stop := gfsGuarded(false, func() string { return gfsErr(e.up.Close()) })
 		return "c:" + s, stop
 	case "suspend":
 		if e.up == nil {
 			return "s:NOSTREAM", false
 		}
-		s, stop := guarded(false, func() string { return numOrErr(e.up.Suspend()) })
+		s, stop := gfsGuarded(false, func() string { return gfsNumOrErr(e.up.Suspend()) })
 		return "s:" + s, stop
 	case "resume":
 		if e.up == nil {
 			return "u:NOSTREAM", false
 		}
-		s, stop := guarded(false, func() string { return numOrErr(e.up.Resume()) })
+		s, stop := gfsGuarded(false, func() string { return gfsNumOrErr(e.up.Resume()) })
 		return "u:" + s, stop
 	case "abort":
 		if e.up == nil {
 			return "a:NOSTREAM", false
 		}
-		s, stop := guarded(false, func() string { return gfsErr(e.up.Abort()) })
+		s, stop := gfsGuarded(false, func() string { return gfsErr(e.up.Abort()) })
 		return "a:" + s, stop
 	case "claim":
-		s, _ := guarded(false, func() string { return gfsErr(e.bucket.ClaimUpload(e.ctx, gfsFileID(arg(1)))) })
+		s, _ := gfsGuarded(false, func() string { return gfsErr(e.bucket.ClaimUpload(e.ctx, gfsFileID(arg(1)))) })
 		return "cl:" + s, false
 	case "delete":
-		s, _ := guarded(false, func() string { return gfsErr(e.bucket.Delete(e.ctx, gfsFileID(arg(1)))) })
+		s, _ := gfsGuarded(false, func() string { return gfsErr(e.bucket.Delete(e.ctx, gfsFileID(arg(1)))) })
 		return "d:" + s, false
 	case "cleanup":
 		// a negative age: every marker is older than now-age, whatever the clock resolution
-		s, _ := guarded(false, func() string { return gfsErr(e.bucket.Cleanup(e.ctx, -time.Hour)) })
+		s, _ := gfsGuarded(false, func() string { return gfsErr(e.bucket.Cleanup(e.ctx, -time.Hour)) })
 		return "cu:" + s, false
 	case "dump":
 		return e.dump(arg(1)), false
 	case "dopen":
-		s, stop := guarded(false, func() string {
+		s, stop := gfsGuarded(false, func() string {
 			d, err := e.bucket.OpenDownloadStream(e.ctx, gfsFileID(arg(1)))
 			if err != nil {
 				e.down = nil
@@ -325,7 +326,7 @@ func (e *gfsEnv) step(seed int64, op *sx) (string, bool) {
 			return "r:NOSTREAM", false
 		}
 		buf := make([]byte, arg(1))
-		s, stop := guarded(false, func() string {
+		s, stop := gfsGuarded(false, func() string {
 			n, err := e.down.Read(buf)
 			cls := "-"
 			if err != nil {
@@ -338,13 +339,13 @@ func (e *gfsEnv) step(seed int64, op *sx) (string, bool) {
 		if e.down == nil {
 			return "k:NOSTREAM", false
 		}
-		s, stop := guarded(false, func() string { return numOrErr(e.down.Seek(arg(1), int(arg(2)))) })
+		s, stop := gfsGuarded(false, func() string { return gfsNumOrErr(e.down.Seek(arg(1), int(arg(2)))) })
 		return "k:" + s, stop
 	case "skip":
 		if e.down == nil {
 			return "j:NOSTREAM", false
 		}
-		s, stop := guarded(false, func() string { return numOrErr(e.down.Skip(arg(1))) })
+		s, stop := gfsGuarded(false, func() string { return gfsNumOrErr(e.down.Skip(arg(1))) })
 		return "j:" + s, stop
 	case "dclose":
 		if e.down == nil {
@@ -355,13 +356,13 @@ func (e *gfsEnv) step(seed int64, op *sx) (string, bool) {
 	panic("gridfs: unknown op " + op.list[0].atom)
 }
 
-func sxText(c *sx) string {
+func gfsSxText(c *sx) string {
 	if !c.isL {
 		return c.atom
 	}
 	parts := make([]string, len(c.list))
 	for i, x := range c.list {
-		parts[i] = sxText(x)
+		parts[i] = gfsSxText(x)
 	}
 	return "(" + strings.Join(parts, " ") + ")"
 }
@@ -386,7 +387,7 @@ func gfsRunInChild(c *sx) string {
 	}
 	ctx, cancel := context.WithTimeout(context.Background(), 60*time.Second)
 	defer cancel()
-	cmd := exec.CommandContext(ctx, exe, "replay", "-family", "gridfs", "-case", sxText(c))
+	cmd := exec.CommandContext(ctx, exe, "replay", "-family", "gridfs", "-case", gfsSxText(c))
 	cmd.Env = append(os.Environ(), "VERIF_GRIDFS_CHILD=1")
 	out, err := cmd.Output()
 	if err != nil {
@@ -924,7 +925,7 @@ func classifyGridfs(c *sx, obs string) ([]string, bool) {
 
 func init() {
 	register(&family{name: "gridfs", gen: genGridfs, run: runGridfs, classify: classifyGridfs})
-	registerOracle(&oracle{prop: "C18", name: "gridfs-roundtrip", run: oracleC18})
+	registerOracle(&oracle{prop: "C18", name: "gridfs-roundtrip", run: oracleC18, replay: replayC18})
 }
 
 // ------------------------------------------------------------------
@@ -1201,6 +1202,37 @@ func runC18Inner(sc *c18Scenario) (string, string) {
 
 var c18HangScenarios int
 
+// replayC18 re-runs the scenario stored in a failure (bin/check replay)
+func replayC18(f oracleFailure) []oracleFailure {
+	b, err := json.Marshal(f.Detail)
+	if err != nil {
+		return nil
+	}
+	sc := &c18Scenario{}
+	if err := json.Unmarshal(b, sc); err != nil || sc.B == 0 {
+		return nil
+	}
+	if !gfsHookAvailable() && sc.B != realUploadBuffer {
+		fmt.Println("not replayable without the verif constructor (buffer size", sc.B, ")")
+		return nil
+	}
+	sig, what := runC18(sc)
+	if sig == "" {
+		return nil
+	}
+	return []oracleFailure{{Property: "C18", Signature: c18Signature(sc, sig), What: what, Detail: sc}}
+}
+
+func c18Signature(sc *c18Scenario, sig string) string {
+	switch {
+	case sig == "C18:panic" && sc.CS <= 0:
+		return "C18:chunk-size-nonpositive-panic"
+	case sig == "C18:hang" && sc.CS > sc.B:
+		return "C18:chunk-size-over-buffer-hang"
+	}
+	return sig
+}
+
 func genC18(r *rng, edges bool) *c18Scenario {
 	sc := &c18Scenario{}
 	sc.B = gfsPickB(r)
@@ -1339,13 +1371,7 @@ func oracleC18(r *rng, n int, st *oracleStats) []oracleFailure {
 			st.Samples = append(st.Samples, key)
 		}
 		if sig != "" {
-			switch {
-			case sig == "C18:panic" && sc.CS <= 0:
-				sig = "C18:chunk-size-nonpositive-panic"
-			case sig == "C18:hang" && sc.CS > sc.B:
-				sig = "C18:chunk-size-over-buffer-hang"
-			}
-			report(sc, sig, what)
+			report(sc, c18Signature(sc, sig), what)
 		}
 	}
 	// runs through the real 16 MiB buffer: content larger than the buffer, so
